@@ -127,6 +127,49 @@ def list_expression_from_when_clause(
     return segments
 
 
+# clauses of a select statement, other than SELECT and FROM, that can hold subquery
+SUBQUERY_CLAUSE_TYPES = [
+    "where_clause",
+    "having_clause",
+    "groupby_clause",
+    "orderby_clause",
+    "limit_clause",
+    "offset_clause",
+    "fetch_clause",
+    "named_window",
+    "qualify_clause",
+]
+
+
+def list_remaining_subqueries(
+    segment: BaseSegment, found: list[SubQueryTuple]
+) -> list[SubQueryTuple]:
+    """
+    Generic sweep for parenthesis holding a SELECT anywhere below segment, skipping those already found.
+    It doesn't go into nested SELECT, which is handled when the subquery itself is extracted.
+    """
+    seen = {
+        extract_innermost_bracketed(sq.parenthesis).raw
+        for sq in found
+        if sq.parenthesis.type == "bracketed"
+    }
+    subquery = []
+    for bracketed in segment.recursive_crawl(
+        "bracketed",
+        no_recursive_seg_type=[
+            "select_statement",
+            "set_expression",
+            "with_compound_statement",
+        ],
+    ):
+        if is_subquery(bracketed):
+            innermost = extract_innermost_bracketed(bracketed)
+            if innermost.raw not in seen:
+                seen.add(innermost.raw)
+                subquery.append(SubQueryTuple(innermost, None))
+    return subquery
+
+
 def list_subqueries(segment: BaseSegment) -> list[SubQueryTuple]:
     subquery = []
     if segment.type == "select_clause":
@@ -154,6 +197,8 @@ def list_subqueries(segment: BaseSegment) -> list[SubQueryTuple]:
                 for bracketed in function.recursive_crawl("bracketed"):
                     if is_subquery(bracketed):
                         subquery.append(SubQueryTuple(bracketed, None))
+        # scalar subquery anywhere else in select list: directly as column, in ELSE, in arithmetic, in cast, etc.
+        subquery += list_remaining_subqueries(segment, subquery)
     elif segment.type == "from_expression_element":
         as_segment, target = extract_as_and_target_segment(segment)
         if is_subquery(target):
@@ -167,18 +212,9 @@ def list_subqueries(segment: BaseSegment) -> list[SubQueryTuple]:
                     extract_identifier(as_segment) if as_segment else None,
                 )
             ]
-    elif segment.type in ["where_clause", "having_clause"]:
-        bracketeds = []
-        if expression := segment.get_child("expression"):
-            bracketeds = expression.get_children("bracketed")
-        elif bracketed_where := segment.get_child("bracketed"):
-            if expression := bracketed_where.get_child("expression"):
-                bracketeds = expression.get_children("bracketed")
-        subquery = [
-            SubQueryTuple(extract_innermost_bracketed(bracketed), None)
-            for bracketed in bracketeds
-            if is_subquery(bracketed)
-        ]
+    elif segment.type in SUBQUERY_CLAUSE_TYPES:
+        # WHERE, HAVING, GROUP BY, ORDER BY, LIMIT, etc. subquery can be anywhere in the expression
+        subquery = list_remaining_subqueries(segment, [])
     elif segment.type in ["from_clause", "from_expression"]:
         if from_expression_element := find_from_expression_element(segment):
             subquery = list_subqueries(from_expression_element)
@@ -192,6 +228,8 @@ def list_subqueries(segment: BaseSegment) -> list[SubQueryTuple]:
         ):
             if from_expression_element := find_from_expression_element(join_clause):
                 subquery += list_subqueries(from_expression_element)
+            for join_on_condition in join_clause.get_children("join_on_condition"):
+                subquery += list_remaining_subqueries(join_on_condition, subquery)
     elif is_set_expression(segment):
         subquery = [
             SubQueryTuple(s, None)
